@@ -40,6 +40,7 @@ from lib import core, gen
 from props import C12
 
 LEVEL = 'other'
+BBH_FEATURES = ['py', 'prover']      # harness command families this check needs (fallback build, lib/core.py build_bbh)
 PY312 = os.environ.get('BB_PY312', '/root/.pyenv/versions/3.12.1/bin/python')
 PYH = f'{core.VERIF}/py/pyharness17.py'
 U64 = (1 << 64) - 1
